@@ -1129,8 +1129,16 @@ def c11_residuals():
         p = ex.run(f, [model, data], dict(mask=z3.Real('cut')))
         s = vrepr(p[0].value) if len(p) == 1 and p[0].outcome == 'return' else repr(p)
         s_ = s.replace('call:lib:numpy.', '').replace('call:attr:', '').replace('(lib:numpy)', '')
-        ok = 'masked_where' in s and ('logical_and(cmp:LtE(model, cut), cmp:LtE(data, cut))' in s_ or 'masked_where(And(cmp:LtE(model, cut), cmp:LtE(data, cut))' in s_)
-        out.append(struct(oid + '.mask', ok, 'masked where model <= mask and data <= mask: %s' % s[:200], fn))
+        # one path for every numeric cut-off (mask=0 included: "entries where both are <= 0" is still a mask request)
+        ok = len(p) == 1 and p[0].outcome == 'return' and 'masked_where' in s and (
+            'logical_and(cmp:LtE(model, cut), cmp:LtE(data, cut))' in s_ or 'masked_where(And(cmp:LtE(model, cut), cmp:LtE(data, cut))' in s_)
+        out.append(struct(oid + '.mask', ok, 'for every cut-off (0 included) masked where model <= mask and data <= mask, on a single path: %s' % s[:200], fn,
+                          finding_key='C11/linear_residual/mask'))
+        for cut0 in (0, 0.0):
+            p = ex.run(f, [model, data], dict(mask=cut0))
+            s = vrepr(p[0].value) if len(p) == 1 and p[0].outcome == 'return' else repr(p)
+            out.append(struct(oid + '.mask-zero.%s' % type(cut0).__name__, len(p) == 1 and 'masked_where' in s,
+                              'mask=%r is applied, not treated as "no mask": %s' % (cut0, s[:160]), fn, finding_key='C11/linear_residual/mask'))
         data, model = _spectra(True, False)
         p = ex.run(f, [model, data])
         s = vrepr(p[0].value) if len(p) == 1 and p[0].outcome == 'return' else repr(p)
